@@ -344,7 +344,58 @@ def validation_tables(repo):
     pctx = Ctx("UtilityParity.__init__",
                optvars={"difference_bound": "difference_bound_given", "ratio_bound": "ratio_bound_given"},
                numvars={"ratio_bound": "ratio_bound"})
-    parity = pctx.stmts(_method(up, "UtilityParity", "__init__").body)
+    pbody = list(_method(up, "UtilityParity", "__init__").body)
+    # optional trailing slack guard: exactly `if self.eps < 0: raise ValueError(..)` after the if/elif chain
+    slack_guard = False
+    last = pbody[-1] if pbody else None
+    if isinstance(last, ast.If) and "self.eps" in ast.unparse(last.test):
+        if ast.unparse(last.test) != "self.eps < 0" or last.orelse or len(last.body) != 1 or not isinstance(last.body[0], ast.Raise) \
+                or not ast.unparse(last.body[0]).startswith("raise ValueError("):
+            raise Untranslatable(f"UtilityParity.__init__: trailing guard on self.eps is not `if self.eps < 0: raise ValueError(..)`: "
+                                 f"`{ast.unparse(last)[:80]}`")
+        slack_guard = True
+        pbody = pbody[:-1]
+    for st in pbody:
+        for n in ast.walk(st):
+            if isinstance(n, (ast.If, ast.While, ast.Assert, ast.IfExp)) and "self.eps" in ast.unparse(n.test):
+                raise Untranslatable("UtilityParity.__init__: a condition on self.eps in a place I do not understand")
+    parity = pctx.stmts(pbody)
+    # the value `self.eps` gets in every branch of the chain (the slack the guard looks at)
+    dflt = _assign(up, "_DEFAULT_DIFFERENCE_BOUND")
+    ectx0 = Ctx("UtilityParity.__init__/eps",
+                optvars={"difference_bound": "difference_bound_given", "ratio_bound": "ratio_bound_given"},
+                numvars={"difference_bound": "difference_bound", "ratio_bound_slack": "ratio_bound_slack",
+                         "_DEFAULT_DIFFERENCE_BOUND": None})
+    ectx0.numvars["_DEFAULT_DIFFERENCE_BOUND"] = ectx0.num(dflt)
+    chains = [st for st in pbody if isinstance(st, ast.If)]
+    if len(chains) != 1:
+        raise Untranslatable("UtilityParity.__init__: expected exactly one if/elif chain")
+
+    def eps_of(node):
+        """nested if-expression for the value assigned to self.eps along the chain; a raising branch gives 0 (unreachable)"""
+        assigns = [x for x in node.body if isinstance(x, ast.Assign) and ast.unparse(x.targets[0]) == "self.eps"]
+        if any(isinstance(x, ast.Raise) for x in node.body) and not assigns:
+            here = "(0 : Rat)"
+        elif len(assigns) == 1:
+            here = ectx0.num(assigns[0].value)
+        else:
+            raise Untranslatable("UtilityParity.__init__: a branch does not assign self.eps exactly once")
+        if not node.orelse:
+            rest = "(0 : Rat)"
+        elif len(node.orelse) == 1 and isinstance(node.orelse[0], ast.If):
+            rest = eps_of(node.orelse[0])
+        else:
+            oa = [x for x in node.orelse if isinstance(x, ast.Assign) and ast.unparse(x.targets[0]) == "self.eps"]
+            if oa:
+                if len(oa) != 1:
+                    raise Untranslatable("UtilityParity.__init__: else branch assigns self.eps more than once")
+                rest = ectx0.num(oa[0].value)
+            elif any(isinstance(x, ast.Raise) for x in node.orelse):
+                rest = "(0 : Rat)"
+            else:
+                raise Untranslatable("UtilityParity.__init__: else branch neither assigns self.eps nor raises")
+        return f"(if {ectx0.cond(node.test)} then {here} else {rest})"
+    parity_eps = eps_of(chains[0])
 
     # ErrorRate.__init__
     keyset, keytext = None, None
@@ -396,6 +447,12 @@ def degenerateGroup (n_positive n_negative : Nat) : Bool :=
 def parityCtor (difference_bound_given ratio_bound_given : Bool) (ratio_bound : Rat) : Bool :=
   {parity}
 
+/-- the value `UtilityParity.__init__` stores in `self.eps` (the slack of the constraints) on the non-raising branches -/
+def parityEps (difference_bound_given ratio_bound_given : Bool) (difference_bound ratio_bound_slack : Rat) : Rat :=
+  {parity_eps}
+/-- `UtilityParity.__init__` ends with `if self.eps < 0: raise ValueError(..)` -/
+def slackMustBeNonneg : Bool := {'true' if slack_guard else 'false'}
+
 /-- the key set `ErrorRate.__init__` demands of `costs` -/
 def costKeys : List String := {slist(keyset)}
 /-- `ErrorRate.__init__`: true = no exception -/
@@ -429,7 +486,7 @@ def toPredictDelegates : Bool := {'true' if tp_deleg else 'false'}
 end Generated.ValidationTables
 """
     meta = {"simple_constraints": len(simple), "objectives_simple": len(obj_s), "objectives_eo": len(obj_e),
-            "metric_dict_keys": len(md_keys), "to_enforces_binary": enforce,
+            "metric_dict_keys": len(md_keys), "to_enforces_binary": enforce, "slack_guard": slack_guard,
             "predict_guards": {f"{c}.{m}": g for c, m, g in guards}, "frame_functions_prefix": frame_prefix,
             "to_predict": {"expect_sf": tp_sf, "expect_y": tp_y, "enforce_binary": tp_bin, "delegates": tp_deleg}}
     return "ValidationTables.lean", src, meta
